@@ -24,14 +24,14 @@ def split_key(cipher, key):
     return key[:16], key[16:30]
 
 
-def build(rng, tier, ctx, padding_case=False, ciphers=None, n=None):
+def build(rng, tier, ctx, padding_case=False, ciphers=None, n=None, shape_case=False):
     """returns list of (name, script) — spec packets are computed by the extracted specification in a first pass"""
     n = n or (16 if tier == "quick" else 160)
     plans = []
     spec_lines = []
     for k in range(n):
         ssrc = rng.randrange(2, 1 << 32)
-        cipher = rng.choice([ICM128, ICM128, ICM256, NULL_CIPHER]) if not padding_case else rng.choice([ICM128, ICM256])
+        cipher = rng.choice([ICM128, ICM128, ICM256, NULL_CIPHER]) if not (padding_case or shape_case) else rng.choice([ICM128, ICM256])
         if ciphers:
             cipher = rng.choice(ciphers)
         klen = 46 if cipher == ICM256 else (38 if cipher == ICM192 else 30)
@@ -40,7 +40,7 @@ def build(rng, tier, ctx, padding_case=False, ciphers=None, n=None):
         auth = HMAC
         use_mki = rng.random() < 0.3
         keys = [(rand_key(rng, klen), bytes([i, 0x55, 3, 4]) if use_mki else b"") for i in range(2 if use_mki else 1)]
-        ids = bytes(rng.sample(range(1, 15), 2)) if (padding_case or rng.random() < 0.3) and cipher != NULL_CIPHER else b""
+        ids = bytes(rng.sample(range(1, 15), 2)) if (padding_case or shape_case or rng.random() < 0.3) and cipher != NULL_CIPHER else b""
         rtag = tag if serv & 2 else 0        # no authentication service: no tag (as the library's own policy helpers set it)
         p = default_policy(rng, ssrc, rtp=cp(cipher=cipher, keylen=klen, taglen=rtag, serv=serv), rtcp=cp(cipher=cipher, keylen=klen, taglen=tag, serv=serv | 2),
                            keys=keys, use_mki=use_mki, mki_size=4 if use_mki else 0, use_key_field=not use_mki, enc_xtn=ids)
@@ -53,7 +53,19 @@ def build(rng, tier, ctx, padding_case=False, ciphers=None, n=None):
             mkey, msalt = split_key(cipher, keys[ki][0])
             conf = (1 if serv & 1 else 0) | (2 if cipher == NULL_CIPHER else 0)
             if j < 3:
-                if padding_case:
+                if shape_case:
+                    # RFC 6904 element shapes without inner padding (so the known finding about padding is not involved): elements
+                    # WITHOUT data (two-byte form allows length 0) before / between / after encrypted ones, listed and unlisted
+                    # ids interleaved, maximal one-byte elements; the keystream is positional over the whole extension block
+                    other = rng.choice([x for x in range(1, 15) if x not in ids])
+                    two = [[(ids[0], b""), (ids[1], rand_key(rng, 3))],
+                           [(other, b""), (ids[0], rand_key(rng, 4)), (ids[1], b"")],
+                           [(ids[0], rand_key(rng, 1)), (ids[1], b""), (other, rand_key(rng, 2)), (ids[0], rand_key(rng, 5))],
+                           [(other, rand_key(rng, 7)), (ids[1], rand_key(rng, 31))]]
+                    one = [[(ids[0], rand_key(rng, 1)), (other, rand_key(rng, 16)), (ids[1], rand_key(rng, 16))],
+                           [(other, rand_key(rng, 3)), (ids[0], rand_key(rng, 4)), (other, rand_key(rng, 2)), (ids[1], rand_key(rng, 2))]]
+                    ext = two_byte_ext(two[(k + j) % 4], appbits=rng.choice([0, 5])) if (k + j) % 3 != 2 else one_byte_ext(one[(k + j) % 2])
+                elif padding_case:
                     el = [(ids[0], rand_key(rng, 3)), (rng.choice([x for x in range(1, 15) if x not in ids]), rand_key(rng, 2)), (ids[1], rand_key(rng, 4))]
                     ext = one_byte_ext(el, pad_between=rng.choice([1, 2])) if j != 1 else two_byte_ext(el, pad_between=1)
                 else:
@@ -101,7 +113,7 @@ def build(rng, tier, ctx, padding_case=False, ciphers=None, n=None):
             L.append(pkt_op(uop, 2, bytes.fromhex(want) if want != "-" else b"", cap=len(pkt) + 200, mode=rng.choice([0, 1])))
             L.append(f"# X {pkt.hex()}")
         L += ["dealloc 1", "dealloc 2"]
-        scripts.append((("pad-" if padding_case else "wire-") + str(k), "\n".join(L) + "\n"))
+        scripts.append((("pad-" if padding_case else ("shape-" if shape_case else "wire-")) + str(k), "\n".join(L) + "\n"))
     return scripts
 
 
@@ -287,6 +299,7 @@ def families(tier, seed, ctx):
     rng = random.Random(seed * 1000 + 3)
     return [Family("wire-vs-rfc", build(rng, tier, ctx), monitor=monitor),
             Family("rfc6904-inner-padding", build(rng, "quick", ctx, padding_case=True)[:6], monitor=monitor),
+            Family("rfc6904-element-shapes", build(random.Random(seed * 1000 + 303), tier, ctx, shape_case=True, n=(8 if tier == "quick" else 60)), monitor=monitor),
             Family("standard-suites", suites_script(False), monitor=suites_monitor(False)),
             Family("standard-suites-openssl", suites_script(True), monitor=suites_monitor(True), config="openssl"),
             Family("rfc7714-vectors", gcm_kat_scripts(), monitor=kat_monitor, config="openssl"),
